@@ -375,6 +375,29 @@ def rule_cachekey(ctx):
             cs, ca = _cached(single[0].args[3]), _cached(allsrc[0].args[3])
             good = cs.op == "param" and cs.a[0] == "Gj" and ca.op == "param" and ca.a[0] == "G"
     yield ob(R, d, "separation._bss_decomp_mtifilt_images:cache-roles", good, "Gj is used with the projection on source j alone, G with the projection on all sources")
+    # a cached matrix that is handed in is only read: the projection never writes the G it received (in-place solvers,
+    # overwrite_a=True, out=G), otherwise every later source is projected with a destroyed Gram matrix
+    for qp in ("separation._project_images", "separation._project"):
+        fp = ctx.program.func(qp, R)
+        sp = ctx.S.get(qp)
+        if "G" not in fp.all_params:
+            continue
+        bad = []
+        for m in sp.by_kind("mutate"):
+            old = m.d.get("old")
+            if old is None or not hasattr(old, "op"):
+                continue
+            o = old
+            for _ in range(60):
+                if o.op == "upd":
+                    o = o.a[0]
+                elif o.op in ("loop", "loopvar"):
+                    o = o.a[2]
+                else:
+                    break
+            if any(z.op == "param" and z.a[0] == "G" for z in resolve_ite_free(o)):
+                bad.append(m)
+        yield ob(R, fp, "%s:cache-read-only" % qp, not bad, "the Gram matrix received from the caller is never written" if not bad else "the Gram matrix received from the caller is written in place (%s at line %d): the cached matrix is destroyed for the sources that follow" % (bad[0].how, bad[0].lineno), node=bad[0].node if bad else None)
     pi = ctx.program.func("separation._project_images", R)
     sp = ctx.S.get(pi.qual)
     recompute = any(any(call_name(z) == "np.all" for z in tm.walk(cnd)) and p for m in sp.by_kind("mutate") if m.root == "G" for cnd, p in symeval.pc_conds(m.pc))
@@ -398,7 +421,19 @@ def rule_silent(ctx):
     sg = ctx.S.get(g.qual)
     t = sg.returns[0].term
     good = t.op == "call" and call_name(t) == "np.any" and any(x.op == "call" and call_name(x) == "np.all" for x in tm.walk(t)) and any(x.op == "cmp" and x.a[0] == "==" for x in tm.walk(t))
-    yield ob(R, g, "separation._any_source_silent:form", good, "a source is silent when all its samples sum to zero along time (any over sources of all-zero)")
+    # one verdict per *source*: the all() runs over time (axis 1) of a (nsrc, nsampl) array - the channels of an image
+    # have been reduced before (summed / or-ed over axes 2..), otherwise a source with one silent channel counts as silent
+    per_source = False
+    for x in tm.walk(t):
+        if x.op == "call" and call_name(x) == "np.all" and x.a[1]:
+            ax = dict(x.a[2]).get("axis", x.a[1][1] if len(x.a[1]) > 1 else None)
+            inner = x.a[1][0]
+            reduced = any(z.op == "call" and call_name(z) in ("np.sum", "np.any", "np.all", "np.max", "np.abs") and any(k_ == "axis" and ("ndim" in tm.show(v_, 6) or v_.op == "tuple" or tm.is_const(v_, 2) or tm.is_const(v_, -1)) for k_, v_ in z.a[2]) for z in tm.walk(inner))
+            if ax is not None and (tm.is_const(ax, 1) and reduced) or (ax is not None and ax.op == "tuple"):
+                per_source = True
+            if ax is not None and ax.op == "call":
+                per_source = True  # tuple(range(1, ndim)): every axis but the source axis
+    yield ob(R, g, "separation._any_source_silent:form", good and per_source, "a source is silent when all its samples sum to zero along time (any over sources of all-zero)" if good and per_source else "silence is decided by %s: not one verdict per source over all of its samples and channels (a stereo source with one silent channel would count as silent)" % tm.show(t, 4))
     for q in PUBLIC:
         f2 = ctx.program.func(q, R)
         s2 = ctx.S.get(q)
